@@ -1128,6 +1128,9 @@ func (p *Program) inlineAt(cs *CallSite, cand *inlineCand, tag string, read func
 		endsRet := false
 		if n := len(fd.Body.List); n > 0 {
 			_, endsRet = fd.Body.List[n-1].(*ast.ReturnStmt)
+			if !endsRet {
+				endsRet = endlessLoop(fd.Body.List[n-1])
+			}
 		}
 		if !bare && endsRet {
 			var g2 strings.Builder
@@ -1534,4 +1537,39 @@ func (p *Program) inlineLocalClosures(fs *FuncSrc, read func(string) []byte) ([]
 		return false
 	})
 	return out, ncalls
+}
+
+// endlessLoop: `for { ... }` without a condition and without a break that
+// leaves it (a terminating statement: control never reaches what follows).
+func endlessLoop(s ast.Stmt) bool {
+	fs, ok := s.(*ast.ForStmt)
+	if !ok || fs.Cond != nil {
+		return false
+	}
+	leaves := false
+	var walk func(n ast.Node, depth int)
+	walk = func(n ast.Node, depth int) {
+		ast.Inspect(n, func(m ast.Node) bool {
+			if m == nil || m == n {
+				return true
+			}
+			switch x := m.(type) {
+			case *ast.FuncLit:
+				return false
+			case *ast.ForStmt, *ast.RangeStmt, *ast.SwitchStmt, *ast.TypeSwitchStmt, *ast.SelectStmt:
+				walk(x, depth+1)
+				return false
+			case *ast.BranchStmt:
+				if x.Tok == token.BREAK && (depth == 0 || x.Label != nil) {
+					leaves = true
+				}
+				if x.Tok == token.GOTO {
+					leaves = true
+				}
+			}
+			return true
+		})
+	}
+	walk(fs.Body, 0)
+	return !leaves
 }
